@@ -46,6 +46,7 @@ type forkChain struct {
 	signer types.Signer
 	serial uint64
 	mined  map[common.Hash]bool // every transaction included in any block ever built (any branch)
+	slots  map[string]bool      // every (sender, nonce) slot executed in any block ever built
 
 	stateAtCalls int64 // atomic: StateAt calls made by the pool (exactly one per executed reset)
 	gateMu       sync.Mutex
@@ -58,6 +59,7 @@ func newForkChain(genesis map[common.Address]*big.Int, gasLimit uint64, signer t
 		sdb:    state.NewDatabase(youdb.NewMemDatabase()),
 		blocks: make(map[common.Hash]*blockInfo),
 		mined:  make(map[common.Hash]bool),
+		slots:  make(map[string]bool),
 		proc:   core.NewStateProcessor(nil, nil),
 		signer: signer,
 	}
@@ -238,9 +240,22 @@ func (fc *forkChain) build(parent *blockInfo, cand []*types.Transaction, adjust 
 	fc.blocks[bi.block.Hash()] = bi
 	for _, tx := range included {
 		fc.mined[tx.Hash()] = true
+		if from, err := types.Sender(fc.signer, tx); err == nil {
+			fc.slots[slotKey(from, tx.Nonce())] = true
+		}
 	}
 	fc.mu.Unlock()
 	return bi, nil
+}
+
+func slotKey(a common.Address, nonce uint64) string { return fmt.Sprintf("%x/%d", a, nonce) }
+
+// slotMinedSomewhere: some transaction of this sender with this nonce is part of some block of
+// some branch.
+func (fc *forkChain) slotMinedSomewhere(a common.Address, nonce uint64) bool {
+	fc.mu.RLock()
+	defer fc.mu.RUnlock()
+	return fc.slots[slotKey(a, nonce)]
 }
 
 // minedSomewhere: the transaction is part of some block of some branch.
